@@ -1349,6 +1349,18 @@ func (m *Machine) doAppend(st *State, x *ssa.Call, args []Val) (Val, bool) {
 	if bMany || aMany {
 		return SliceV{Abs: true, Many: true}, true
 	}
+	// enough capacity: the elements are written into the backing array (visible through every alias)
+	if sv, isSl := args[0].(SliceV); isSl && !sv.Abs && len(add) > 0 && sv.Len_+len(add) <= sv.Cap {
+		okAll := true
+		for i, e := range add {
+			if !st.store(Ptr{Obj: sv.Obj, Path: pathAppend(sv.Path, sv.Lo+sv.Len_+i)}, cloneVal(e)) {
+				okAll = false
+			}
+		}
+		if okAll {
+			return SliceV{Obj: sv.Obj, Path: sv.Path, Lo: sv.Lo, Len_: sv.Len_ + len(add), Cap: sv.Cap}, true
+		}
+	}
 	et := x.Type().Underlying().(*types.Slice).Elem()
 	arr := &ArrayV{}
 	for _, e := range base {
